@@ -3,7 +3,7 @@ import json, os, re
 from .. import client as C
 from .. import bits as B
 from .exprs import show, same
-from . import c01
+from . import c01, bytesem
 
 VERIF = os.path.dirname(os.path.dirname(os.path.dirname(os.path.abspath(__file__))))
 MT = "stun_rs::message::MessageType"
@@ -226,13 +226,10 @@ def r2_5_constants(ctx, prog, rule="R2.5"):
     paths, info = C.explore_fn(prog, dec.path, "x", [r"\{closure"])
     rd = set()
     for pa in paths:
-        for e in pa.calls:
-            if re.search(r"Index<.*> for \[u8\]>::index$", e[1]) and isinstance(e[2][1], tuple):
-                r = e[2][1]
-                if r[0] == "Range":
-                    rd.add((r[1], r[2]))
-                elif r[0] == "RangeTo":
-                    rd.add((0, r[1]))
+        # the byte ranges the accepted header's fields are built from, however the reads are written
+        r = C.expr_of(pa, pa.ret)
+        if isinstance(r, tuple) and r[0] == "Result::Ok":
+            rd |= bytesem.byte_ranges(r)
     exp = {(0, 2), (2, 4), (4, 8), (8, 20)}
     ctx.ob(rule, "header-ranges", wr >= exp and rd == exp, "writer ranges %s, reader ranges %s" % (sorted(wr), sorted(rd)), enc.where())
 
@@ -402,11 +399,8 @@ def r2_10_header_validation(ctx, prog, rule="R2.10"):
     fn = "<stun_rs::raw::MessageHeader<'a> as stun_rs::Decode<'a>>::decode"
     paths, info = C.explore_fn(prog, fn, "x", [r"\{closure"])
     ctx.fn(info["body"])
-    T = ("BigEndian::read_u16", (("index::index", "top:buffer", ("RangeTo", 2)), ".*"))
-    T2 = ("BigEndian::read_u16", (("index::index", "top:buffer", ("Range", 0, 2)), ".*"))
-
     def is_t(x):
-        return x == T or x == T2
+        return bytesem.be_value(x) == (0, 2)
     n_ok = 0
     for pa in paths:
         r = C.expr_of(pa, pa.ret)
@@ -430,7 +424,7 @@ def r2_10_header_validation(ctx, prog, rule="R2.10"):
             if not m:
                 continue
             a = C.expr_of(pa, e[2])
-            if repr(("Range", 4, 8)) in repr(a) and 0x2112A442 in [x for t in a if isinstance(t, tuple) for x in t if isinstance(x, int)]:
+            if (4, 8) in bytesem.byte_ranges(a) and 0x2112A442 in [x for t in a if isinstance(t, tuple) for x in t if isinstance(x, int)]:
                 want = 1 if m.group(1) == "eq" else 0
                 got = pa.choice(r"%s$" % re.escape(e[4].split("@")[-1]))
                 cookie_ok = (got == want)
@@ -438,8 +432,8 @@ def r2_10_header_validation(ctx, prog, rule="R2.10"):
         hdr = val[1] if isinstance(val, tuple) and val[0] == "tuple" else None
         shape_ok = isinstance(hdr, tuple) and hdr[0] == "MessageHeader" and len(hdr) == 6 and val[2] == 20 \
             and isinstance(hdr[2], tuple) and hdr[2][0] == "op:BitAnd" and is_t(hdr[2][1]) and hdr[2][2] == 0x3FFF \
-            and hdr[3] == ("BigEndian::read_u16", (("index::index", "top:buffer", ("Range", 2, 4)), ".*")) \
-            and repr(("Range", 4, 8)) in repr(hdr[4]) and repr(("Range", 8, 20)) in repr(hdr[5])
+            and bytesem.be_value(hdr[3]) == (2, 4) \
+            and bytesem.byte_ranges(hdr[4]) == {(4, 8)} and bytesem.byte_ranges(hdr[5]) == {(8, 20)}
         ctx.ob(rule, "header:accept", bits_ok and cookie_ok and shape_ok,
                "accepted iff top two bits zero: %s, cookie equal: %s; fields type&0x3FFF / length 2..4 / cookie 4..8 / id 8..20 / size 20: %s"
                % (bits_ok, cookie_ok, shape_ok), info["where"], replay=None if (bits_ok and cookie_ok and shape_ok) else pa.describe())
